@@ -15,6 +15,7 @@ use std::pin::Pin;
 use std::sync::{Arc, Mutex};
 use std::task::{Context, Poll, RawWaker, RawWakerVTable, Waker};
 
+pub fn block_on_pub<F: Future>(f: F) -> F::Output { block_on(f) }
 fn block_on<F: Future>(mut f: F) -> F::Output {
     fn noop(_: *const ()) {}
     fn clone(_: *const ()) -> RawWaker { RawWaker::new(std::ptr::null(), &VT) }
